@@ -364,9 +364,11 @@ def replay_goal(fn, params, model, goal_name):
     try:
         fn(Wc, **params)
     except Exception as e:
-        # the real code raises on this input: for a 'never raises' goal that confirms it
+        # the real code raises on this input: for a 'never raises' goal that confirms it -- but only when it is the same
+        # exception the symbolic run met (anything else is the harness or a stub failing, i.e. an encoder problem)
         info = {"raised": "%s: %s" % (type(e).__name__, str(e)[:300])}
-        return (goal_name.endswith("noraise") or goal_name.startswith("<exception")), info
+        same = goal_name.startswith("<exception:%s>" % type(e).__name__)
+        return (goal_name.endswith("noraise") or same), info
     if goal_name not in Wc.goals and getattr(Wc, "resolver", None) is not None:
         v = Wc.resolver(goal_name)
         if v is not None:
@@ -384,9 +386,9 @@ def _exception_goal(fn, params, W, e):
     try:
         r = solve.check(W.run.assumptions + W.run.side + W.run.path + W.bounds, timeout=10.0, inputs=W.inputs, portfolio=False)
         if r["verdict"] == "sat":
-            ok, info = replay_goal(fn, params, r["model"] or {}, "<exception>")
+            ok, info = replay_goal(fn, params, r["model"] or {}, "<exception:%s>" % type(e).__name__)
             rec["replay"] = info
-            if "raised" in info:
+            if ok and "raised" in info:
                 rec["verdict"] = "violated"
                 rec["model"] = {k: _fr(v) for k, v in (r["model"] or {}).items() if "!" not in k}
             else:
